@@ -572,13 +572,16 @@ func init() {
 				return c
 			}
 			p := pipeline.Pipeline(fn, gn)
-			out1 := Named(p(7), "out1")
-			out2 := Named(p(8), "out2")
-			regOutput(hs[0], out1)
-			regOutput(hs[1], out2)
 			i0, i1 := hs[0].invariant(s), hs[1].invariant(s)
 			s.SetInvariant(func() { i0(); i1() })
-			GoHarness("consumer2", func() { hs[1].consume(out2, 0) })
+			// two callers use the same composed function at the same time
+			GoHarness("caller2", func() {
+				out2 := Named(p(8), "out2")
+				regOutput(hs[1], out2)
+				hs[1].consume(out2, 0)
+			})
+			out1 := Named(p(7), "out1")
+			regOutput(hs[0], out1)
 			hs[0].consume(out1, 0)
 		})
 		finish(s, f, o)
@@ -587,6 +590,79 @@ func init() {
 				o.Class, o.Detail = "lost-item", fmt.Sprintf("invocation %d: g was applied to %d of the %d items f produced", i, len(h.order), nb)
 			}
 			h.check(o, false, ident)
+		}
+		return o
+	})
+
+	// ---- two callers use one combinator at the same time ------------------------------
+	// (a change that introduces state shared between calls - a pool, a cache,
+	// a package-level variable - only shows when calls overlap)
+	reg("concurrent-callers", func(ts *tape.Set, trace bool) *Outcome {
+		cf := ts.Fork("cfg")
+		kind := cf.Intn(3)
+		type inv struct {
+			counts, caps []int
+			h            *hist
+		}
+		var invs []*inv
+		total := 0
+		for k := 0; k < 2; k++ {
+			n := 1
+			if kind == 1 {
+				n = 1 + cf.Intn(3)
+			}
+			counts, caps := drawInputs(cf, n, 3)
+			nout := 1
+			if kind == 2 {
+				nout = 2
+			}
+			invs = append(invs, &inv{counts, caps, newHist(nout)})
+			total += opsBound(counts)
+		}
+		s := New(simConfig(cf, 2*total, trace), ts.Fork("sched"))
+		o := &Outcome{Decoded: map[string]any{"combinator": []string{"fmap", "join-slice", "dup"}[kind], "items": [][]int{invs[0].counts, invs[1].counts}, "caps": [][]int{invs[0].caps, invs[1].caps}}}
+		f := s.Run(func() {
+			body := func(k int) {
+				iv := invs[k]
+				h := iv.h
+				var ins []*Chan[int]
+				for i := range iv.counts {
+					c := Named(Make[int](iv.caps[i]), fmt.Sprintf("in%d_%d", k, i))
+					ins = append(ins, c)
+					h.addInput(c)
+					its := itemsOf(i, iv.counts[i])
+					for j := range its {
+						its[j] += 1000 * (k + 1)
+					}
+					GoHarness("producer", h.producer(c, its))
+				}
+				switch kind {
+				case 0:
+					out := Named(fmapint.Fmap(func(x int) int { return x }, ins[0]), fmt.Sprintf("out%d", k))
+					regOutput(h, out)
+					h.consume(out, 0)
+				case 1:
+					out := Named(joinsr.Join(ins), fmt.Sprintf("out%d", k))
+					regOutput(h, out)
+					h.consume(out, 0)
+				case 2:
+					c1, c2 := dupb.Dup(ins[0])
+					Named(c1, fmt.Sprintf("out%d_1", k))
+					Named(c2, fmt.Sprintf("out%d_2", k))
+					regOutput(h, c1)
+					regOutput(h, c2)
+					GoHarness("consumer2", func() { h.consume(c2, 1) })
+					h.consume(c1, 0)
+				}
+			}
+			i0, i1 := invs[0].h.invariant(s), invs[1].h.invariant(s)
+			s.SetInvariant(func() { i0(); i1() })
+			GoHarness("caller2", func() { body(1) })
+			body(0)
+		})
+		finish(s, f, o)
+		for _, iv := range invs {
+			iv.h.check(o, kind != 1, ident)
 		}
 		return o
 	})
